@@ -6,7 +6,7 @@ wt=/tmp/verif_rebase.$$
 git -C /repo worktree add -q --detach "$wt" HEAD || exit 2
 trap 'git -C /repo worktree remove --force "$wt" 2>/dev/null; rm -rf "$wt"' EXIT
 cd "$wt"
-for f in /verif/seeded/*/patch.diff /verif/mutants/*.diff; do
+for f in /verif/seeded/*/patch.diff /verif/mutants/*.diff /verif/neutral/*.diff; do
   git checkout -q -- . ; git clean -fdq
   if git apply --check "$f" 2>/dev/null; then continue; fi
   if patch -p1 -F3 -s --no-backup-if-mismatch < "$f" >/dev/null 2>&1; then
